@@ -45,6 +45,10 @@ impl BitSet {
 
         let mut total_added = 0;
 
+        // Create all missing pages up front in one pass: adding them one at a time in front of
+        // existing pages shifts the tail of the page map on every insertion (quadratic time).
+        self.ensure_pages_for_major_range(major_start, major_end);
+
         for major in major_start..=major_end {
             let page_start = start.max(Self::major_start(major));
             let page_end = end.min(Self::major_start(major) + (PAGE_BITS - 1));
@@ -525,6 +529,36 @@ impl BitSet {
                 page_index
             }
         }
+    }
+
+    /// Ensures that a page exists for every major value in `major_start..=major_end`.
+    fn ensure_pages_for_major_range(&mut self, major_start: u32, major_end: u32) {
+        let lo = self
+            .page_map
+            .partition_point(|info| info.major_value < major_start);
+        let hi = self
+            .page_map
+            .partition_point(|info| info.major_value <= major_end);
+        let wanted = (major_end - major_start) as usize + 1;
+        if hi - lo == wanted {
+            return;
+        }
+        let mut merged = Vec::with_capacity(wanted);
+        let mut existing = self.page_map[lo..hi].iter().copied().peekable();
+        for major_value in major_start..=major_end {
+            match existing.peek() {
+                Some(info) if info.major_value == major_value => {
+                    merged.push(*info);
+                    existing.next();
+                }
+                _ => {
+                    let index = self.pages.len() as u32;
+                    self.pages.push(BitPage::new_zeroes());
+                    merged.push(PageInfo { index, major_value });
+                }
+            }
+        }
+        self.page_map.splice(lo..hi, merged);
     }
 
     /// Return a reference to the page that `value` resides in.
